@@ -8,8 +8,6 @@ instance (h : Hex) : Decidable (wfHex h) := by cases h <;> simp only [wfHex, U64
 instance (n) (v : V Label Hex) : Decidable (wfV n wfLabel wfHex v) := by simp only [wfV, U64]; infer_instance
 instance (g : G Label Hex) : Decidable (WfG g) := by simp only [WfG, wfImg, U64]; infer_instance
 
-instance : Inhabited Hex := ⟨.inline (List.replicate 8 0) 0⟩
-
 /-- a small graph with a multi-byte label, heap data and inline data with non-zero padding -/
 def demoG : Option (G Label Hex) := do
   let g ← add (empty 2 3 : G Label Hex) 1
